@@ -19,7 +19,7 @@ fn rank_deficient(t: &[V4; 3]) -> bool {
     let m: [[f64; 4]; 3] = t.map(|p| p.map(|c| c as f64));
     let scale = m.iter().flatten().fold(1e-30f64, |a, x| a.max(x.abs()));
     let minor = |c: [usize; 3]| m[0][c[0]] * (m[1][c[1]] * m[2][c[2]] - m[1][c[2]] * m[2][c[1]]) - m[0][c[1]] * (m[1][c[0]] * m[2][c[2]] - m[1][c[2]] * m[2][c[0]]) + m[0][c[2]] * (m[1][c[0]] * m[2][c[1]] - m[1][c[1]] * m[2][c[0]]);
-    [[0, 1, 2], [0, 1, 3], [0, 2, 3], [1, 2, 3]].iter().all(|c| minor(*c).abs() <= 1e-9 * scale * scale * scale)
+    [[0, 1, 2], [0, 1, 3], [0, 2, 3], [1, 2, 3]].iter().all(|c| minor(*c).abs() <= 1e-5 * scale * scale * scale) // 'through the origin' up to the f32 rounding of the lattice values (0.3, -0.35 ...)
 }
 
 fn clip_class(t: &[V4; 3]) -> &'static str {
